@@ -330,6 +330,27 @@ def run(ctx):
                         ctx.violation("the matrix over a cell subset depends on the order in which the cells are listed",
                                       {"case": descr2, "listed": list(sub), "difference": d_},
                                       {"what": "subset-order", "basis": "cell"})
+                if len(sub) >= 2:
+                    # asm over a LIST of bases (the subset split in two parts): the sum of the separate assemblies, for
+                    # all three form types
+                    from skfem import asm
+                    cut = rng.randint(1, len(sub) - 1)
+                    parts = [CellBasis(m, ub.elem, elements=np.array(sorted(sub)[:cut], dtype=np.int64), intorder=io),
+                             CellBasis(m, ub.elem, elements=np.array(sorted(sub)[cut:], dtype=np.int64), intorder=io)]
+                    gb = BilinearForm(fields.generic_bilinear())
+                    fn_ = Functional(lambda w: 1. + np.asarray(w["x"])[0] + 0. * np.asarray(w["h"]))
+                    ln_ = LinearForm(lambda *a: fields.generic_bilinear()(*a[:-1], *a[:-1], a[-1]) * 0. + sum(
+                        np.asarray(f).reshape((-1,) + np.asarray(f).shape[-2:]).sum(0) for f in a[:-1]))
+                    ctx.count("asm-over-list-of-bases")
+                    for lab, F_ in (("functional", fn_), ("linear form", ln_), ("bilinear form", gb)):
+                        whole_ = asm(F_, parts)
+                        sep = F_.assemble(parts[0]) + F_.assemble(parts[1])
+                        d_ = float(np.abs(whole_ - sep).max()) if lab != "functional" else abs(float(whole_) - float(sep))
+                        sc_ = float(np.abs(sep).max()) if lab != "functional" else abs(float(sep))
+                        if d_ > 1e-12 * max(1.0, sc_):
+                            ctx.violation("asm(" + lab + ", [basis over part 1, basis over part 2]) is not the sum of the two "
+                                          "assemblies", {"case": descr2, "parts": [sorted(sub)[:cut], sorted(sub)[cut:]],
+                                                         "difference": d_}, {"what": "asm-list", "form": lab})
                 if len(sub) >= 1 and rng.random() < 0.5:
                     # the full-length variants: every cell once in another order; one cell twice
                     perm = list(range(m.nelements))
